@@ -492,7 +492,7 @@ func lexCommentOpen(l *lexer) stateFn {
 		til = len(l.input[l.start:])
 	}
 	l.pos += til
-	if string(l.input[l.pos-1]) == delimTrimWhitespace {
+	if til > 0 && string(l.input[l.pos-1]) == delimTrimWhitespace {
 		l.backup()
 		l.emit(tokenText)
 		l.next()
